@@ -577,11 +577,52 @@ fn views_part(rep: &mut Report, thorough: bool) {
 /// Buffers the foreign side obtains from `diplomat_alloc` (the JS runtime and Dart's `_RustAlloc` do, also for empty
 /// lists): whatever the size — zero included — the address is non-null and aligned for the element type, a view of
 /// `len` elements over it is what `from_raw_parts` needs, reads back what was stored, and `diplomat_free` takes it back.
+
+/// The allocation probes hand addresses to the allocator; a wrong one kills the process.  They run in a child whose
+/// last announced case is then the failing input.
 fn alloc_views_probe(rep: &mut Report) {
+    let exe = std::env::current_exe().unwrap();
+    let out = std::process::Command::new(exe).arg("C16-alloc-child").output();
+    rep.oracle_runs += 1;
+    match out {
+        Err(e) => rep.notes.push(format!("allocation probes could not be started: {e}")),
+        Ok(o) => {
+            let text = String::from_utf8_lossy(&o.stdout);
+            let mut last = String::new();
+            for l in text.lines() {
+                if let Some(c) = l.strip_prefix("case ") { last = c.to_string(); }
+                if let Some(c) = l.strip_prefix("count ") { if let Some((k, n)) = c.split_once(' ') { rep.count_n(k, n.parse().unwrap_or(0)); } }
+                if let Some(f) = l.strip_prefix("fail ") {
+                    if let Ok(v) = serde_json::from_str::<serde_json::Value>(f) {
+                        rep.oracle_fail(v["case"].as_str().unwrap_or("?"), v["what"].as_str().unwrap_or("?"), v["detail"].clone());
+                    }
+                }
+            }
+            if !o.status.success() {
+                rep.oracle_fail(&format!("(c16 probe alloc-child after {last})"), "the process died in diplomat_alloc / diplomat_free or in a view over an allocated buffer (memory error)", json!({"status": format!("{}", o.status), "last_case": last, "stderr": String::from_utf8_lossy(&o.stderr).lines().take(4).collect::<Vec<_>>()}));
+            }
+        }
+    }
+}
+
+pub fn alloc_child() {
+    let mut rep = Report::new("C16-alloc-child");
+    println!("case (start)"); // also makes stdout allocate its buffer before any counting starts
+    alloc_views_probe_inner(&mut rep);
+    for f in &rep.oracle_failures {
+        println!("fail {}", serde_json::to_string(f).unwrap());
+    }
+    for (k, n) in &rep.distribution {
+        println!("count {k} {n}");
+    }
+}
+
+fn alloc_views_probe_inner(rep: &mut Report) {
     use diplomat_runtime::{diplomat_alloc, diplomat_free, DiplomatSlice};
     fn one<T: Copy + PartialEq + std::fmt::Debug + Default>(name: &str, len: usize, fill: T, rep: &mut Report) {
         let (size, align) = (len * std::mem::size_of::<T>(), std::mem::align_of::<T>());
         let case = format!("(c16 probe alloc-view {name} len={len})");
+        println!("case {case}");
         rep.oracle_runs += 1;
         rep.count("probe:alloc-views");
         unsafe {
@@ -607,6 +648,7 @@ fn alloc_views_probe(rep: &mut Report) {
     {
         let o = crate::alloctrack::tracked(|| unsafe {
             for (size, align) in [(0usize, 1usize), (0, 2), (0, 4), (0, 8), (1, 1), (6, 2), (24, 8), (0, 1)] {
+                println!("case (c16 probe alloc-free-pair size={size} align={align})");
                 let p = diplomat_alloc(size, align);
                 diplomat_free(p, size, align);
             }
